@@ -280,6 +280,27 @@ CHECKS['C17'] = dict(
          'quotes.',
     design='4 C17')
 
+CHECKS['C11'] = dict(
+    technique='Hypothesis rule-based state machine (stateful / model-based '
+              'testing) over create/call histories with a fresh-process '
+              'differential oracle, global-registry invariants after every '
+              'step, and thread batches under a harness-owned deterministic '
+              'line-level scheduler',
+    text='Histories of up to 25 (quick) / 40 (thorough) steps: creating load '
+         'and dump(s)/dumps_json functions over four models that share class '
+         'names with different signatures, calling them on 24 valid/invalid/'
+         'foreign-tagged/aliased/cyclic/unparseable documents and on values '
+         'of their own and of other models, sequentially and as 2-3 calls in '
+         'threads under generated (thread, quantum) schedules. Every call '
+         'must give the outcome the same call has on freshly built classes '
+         'and functions in a new process; PyYAML registries, yaml.safe_load/'
+         'safe_dump answers (baseline from a process that never imported '
+         'yatiml), yatiml base-class registries and vars() of user classes '
+         'are unchanged after every step.',
+    design='4 C11',
+    note=TRUST + '; thread schedules are interleavings of Python lines under '
+         'the GIL - native races are out of reach')
+
 NOT_YET = 'check not built yet in this session (work in progress)'
 
 
